@@ -1623,3 +1623,145 @@ Proof.
   rewrite <- Hput. unfold show_authk at 2 3. cbn [fst snd].
   unfold show_authk. rewrite Er, Et, E1, Ek, E2. reflexivity.
 Qed.
+
+(* ------------------------------------------------------------------ *)
+(* auth.Client.Do with a warm Bearer cache and the token request spelled out *)
+
+Lemma auth_do_tokw_at_attempts p cn bd sc tb tsc t0 :
+  let a := auth_do_tokw_at p cn bd sc tb tsc t0 in
+  1 <= Z.of_nat (length (attempts (aw_first a))) <= maxr p + 1 /\
+  Z.of_nat (length (attempts (aw_second a))) <= maxr p + 1 /\
+  Z.of_nat (length (attempts (aw_token a))) <= maxr p + 1 /\
+  Z.of_nat (length (attempts (aw_third a))) <= maxr p + 1.
+Proof.
+  unfold auth_do_tokw_at.
+  pose proof (round_trip_attempts p cn bd (init_state bd) sc t0) as H1. cbv zeta in H1.
+  set (o1 := round_trip p cn bd (init_state bd) sc t0) in *.
+  assert (Hm : 0 <= maxr p + 1) by (unfold maxr; lia).
+  destruct (challenged (o_res o1));
+    [|cbn [aw_first aw_second aw_token aw_third attempts length]; repeat split; try apply H1; exact Hm].
+  destruct (rewind bd (o_st o1)) as [st2| |]; cbn [aw_first aw_second aw_token aw_third attempts length];
+    try (repeat split; try apply H1; exact Hm).
+  pose proof (round_trip_attempts p cn bd st2 (o_script o1) (o_time o1)) as H2. cbv zeta in H2.
+  set (o2 := round_trip p cn bd st2 (o_script o1) (o_time o1)) in *.
+  destruct (bearer_challenged (o_res o1) && unauthorized (o_res o2));
+    [|cbn [aw_first aw_second aw_token aw_third attempts length]; repeat split; try apply H1; try apply H2; exact Hm].
+  pose proof (fetch_token_attempts p cn tb tsc (o_time o2)) as HK.
+  set (k := fetch_token p cn tb tsc (o_time o2)) in *.
+  destruct (k_ok k);
+    [|cbn [aw_first aw_second aw_token aw_third attempts length]; repeat split; try apply H1; try apply H2; try apply HK; exact Hm].
+  destruct (rewind bd (o_st o2)) as [st3| |]; cbn [aw_first aw_second aw_token aw_third attempts length];
+    try (repeat split; try apply H1; try apply H2; try apply HK; exact Hm).
+  pose proof (round_trip_attempts p cn bd st3 (o_script o2) (k_time k)) as H3. cbv zeta in H3.
+  repeat split; try apply H1; try apply H2; try apply HK; apply H3.
+Qed.
+
+Lemma auth_do_tokw_at_bodies p cn bd sc tb tsc t0 :
+  wf_body bd -> wf_body tb ->
+  let a := auth_do_tokw_at p cn bd sc tb tsc t0 in
+  bodies_ok bd sc 0 (attempts (aw_first a) ++ attempts (aw_second a) ++ attempts (aw_third a)) /\
+  bodies_ok tb tsc 0 (attempts (aw_token a)).
+Proof.
+  intros Hwf Hwt. unfold auth_do_tokw_at.
+  destruct (round_trip_bodies_gen p cn bd sc 0%nat (init_state bd) t0 Hwf eq_refl) as (B1 & S1 & N1).
+  cbn [skipn] in *.
+  set (o1 := round_trip p cn bd (init_state bd) sc t0) in *.
+  assert (Hnil : bodies_ok tb tsc 0 []) by (intros i t g Hi; destruct i; discriminate).
+  destruct (challenged (o_res o1));
+    [|cbn [aw_first aw_second aw_token aw_third attempts]; rewrite !app_nil_r; split; assumption].
+  destruct (rewind bd (o_st o1)) as [st2| |] eqn:Hrw; cbn [aw_first aw_second aw_token aw_third attempts];
+    try (rewrite !app_nil_r; split; assumption).
+  assert (Hf : s_rest st2 = bdata bd) by (eapply rewind_fresh; eauto).
+  cbn [Nat.add] in S1. rewrite S1.
+  destruct (round_trip_bodies_gen p cn bd sc (length (attempts (o_trace o1))) st2 (o_time o1) Hwf Hf)
+    as (B2 & S2 & N2).
+  set (o2 := round_trip p cn bd st2 (skipn (length (attempts (o_trace o1))) sc) (o_time o1)) in *.
+  destruct (bearer_challenged (o_res o1) && unauthorized (o_res o2)).
+  2:{ cbn [aw_first aw_second aw_token aw_third attempts]. rewrite app_nil_r.
+      split; [apply bodies_ok_app; assumption|exact Hnil]. }
+  pose proof (fetch_token_bodies p cn tb tsc (o_time o2) Hwt) as BK.
+  set (k := fetch_token p cn tb tsc (o_time o2)) in *.
+  destruct (k_ok k);
+    [|cbn [aw_first aw_second aw_token aw_third attempts]; rewrite app_nil_r;
+      split; [apply bodies_ok_app; assumption|exact BK]].
+  destruct (rewind bd (o_st o2)) as [st3| |] eqn:Hrw2; cbn [aw_first aw_second aw_token aw_third attempts];
+    try (rewrite app_nil_r; split; [apply bodies_ok_app; assumption|exact BK]).
+  assert (Hf3 : s_rest st3 = bdata bd) by (eapply rewind_fresh; eauto).
+  rewrite S2.
+  destruct (round_trip_bodies_gen p cn bd sc
+              (length (attempts (o_trace o1)) + length (attempts (o_trace o2))) st3 (k_time k) Hwf Hf3)
+    as (B3 & _ & _).
+  split; [|exact BK].
+  apply bodies_ok_app; [exact B1|]. apply bodies_ok_app; [exact B2|exact B3].
+Qed.
+
+Lemma auth_do_tokw_at_not_replayable p cn bd sc tb tsc t0 :
+  (forall st', rewind bd st' = RwNoGetBody \/ rewind bd st' = RwGetBodyErr) ->
+  let a := auth_do_tokw_at p cn bd sc tb tsc t0 in
+  length (attempts (aw_first a)) = 1%nat /\ aw_second a = [] /\ aw_token a = [] /\ aw_third a = [].
+Proof.
+  intro Hrw. unfold auth_do_tokw_at.
+  destruct (round_trip_not_replayable p cn bd (init_state bd) sc t0 Hrw)
+    as (bh & sc' & got & st1 & o & t1 & _ & _ & Htr & _).
+  set (o1 := round_trip p cn bd (init_state bd) sc t0) in *.
+  destruct (challenged (o_res o1)); [|cbn [aw_first aw_second aw_token aw_third]; rewrite Htr; auto].
+  destruct (Hrw (o_st o1)) as [E|E]; rewrite E; cbn [aw_first aw_second aw_token aw_third]; rewrite Htr; auto.
+Qed.
+
+Definition authw_cancel_post (tc t0 : Z) (a : authw_out) : Prop :=
+  Forall (fun x => fst x < tc) (tl (attempts (aw_first a))) /\
+  Forall (fun x => fst x < tc) (tl (attempts (aw_second a))) /\
+  Forall (fun x => fst x < tc) (tl (attempts (aw_token a))) /\
+  Forall (fun x => fst x < tc) (tl (attempts (aw_third a))) /\
+  aw_time a <= Z.max t0 tc /\
+  Forall (fun pd => fst pd + snd pd < tc \/ (aw_res a = RCtx /\ aw_time a = Z.max (fst pd) tc))
+         (pauses (aw_first a) ++ pauses (aw_second a) ++ pauses (aw_token a) ++ pauses (aw_third a)).
+
+Lemma auth_do_tokw_at_cancel p bd sc tb tsc t0 tc dl :
+  authw_cancel_post tc t0 (auth_do_tokw_at p (Some (tc, dl)) bd sc tb tsc t0).
+Proof.
+  unfold auth_do_tokw_at, authw_cancel_post.
+  pose proof (round_trip_cancel p bd (init_state bd) sc t0 tc dl) as C1.
+  set (o1 := round_trip p (Some (tc, dl)) bd (init_state bd) sc t0) in *.
+  destruct (challenged (o_res o1)) eqn:Hch.
+  2:{ cbn [aw_first aw_second aw_token aw_third aw_res aw_time attempts pauses tl]. rewrite !app_nil_r.
+      destruct C1 as (A1 & T1 & P1 & _). repeat split; auto. }
+  pose proof (cancel_post_pauses_done _ _ _ C1 (challenged_not_ctx _ Hch)) as D1.
+  destruct C1 as (A1 & T1 & _ & _).
+  destruct (rewind bd (o_st o1)) as [st2| |];
+    cbn [aw_first aw_second aw_token aw_third aw_res aw_time attempts pauses tl]; rewrite ?app_nil_r;
+    try (repeat split; auto; apply pauses_done_weaken; exact D1).
+  pose proof (round_trip_cancel p bd st2 (o_script o1) (o_time o1) tc dl) as C2.
+  set (o2 := round_trip p (Some (tc, dl)) bd st2 (o_script o1) (o_time o1)) in *.
+  destruct (bearer_challenged (o_res o1) && unauthorized (o_res o2)) eqn:Hw.
+  2:{ cbn [aw_first aw_second aw_token aw_third aw_res aw_time attempts pauses tl]. rewrite !app_nil_r.
+      destruct C2 as (A2 & T2 & P2 & _). repeat split; auto; [lia|].
+      apply Forall_app. split; [apply pauses_done_weaken; exact D1|exact P2]. }
+  apply andb_true_iff in Hw. destruct Hw as [_ Hun].
+  pose proof (cancel_post_pauses_done _ _ _ C2 (unauthorized_not_ctx _ Hun)) as D2.
+  destruct C2 as (A2 & T2 & _ & _).
+  unfold fetch_token.
+  pose proof (round_trip_cancel p tb (init_state tb) tsc (o_time o2) tc dl) as CK.
+  set (ok := round_trip p (Some (tc, dl)) tb (init_state tb) tsc (o_time o2)) in *.
+  cbn [k_ok k_res k_trace k_time].
+  destruct (token_ok (o_res ok)) eqn:Hok.
+  - pose proof (cancel_post_pauses_done _ _ _ CK (token_ok_not_ctx _ Hok)) as DK.
+    destruct CK as (AK & TK & _ & _).
+    destruct (rewind bd (o_st o2)) as [st3| |];
+      cbn [aw_first aw_second aw_token aw_third aw_res aw_time attempts pauses tl]; rewrite ?app_nil_r;
+      try (repeat split; auto; [lia|
+           apply Forall_app; split; [apply pauses_done_weaken; exact D1|];
+           apply Forall_app; split; apply pauses_done_weaken; assumption]).
+    destruct (round_trip_cancel p bd st3 (o_script o2) (o_time ok) tc dl) as (A3 & T3 & P3 & _).
+    repeat split; auto; [lia|].
+    apply Forall_app. split; [apply pauses_done_weaken; exact D1|].
+    apply Forall_app. split; [apply pauses_done_weaken; exact D2|].
+    apply Forall_app. split; [apply pauses_done_weaken; exact DK|exact P3].
+  - cbn [aw_first aw_second aw_token aw_third aw_res aw_time attempts pauses tl]. rewrite app_nil_r.
+    destruct CK as (AK & TK & PK & _).
+    repeat split; auto; [lia|].
+    apply Forall_app. split; [apply pauses_done_weaken; exact D1|].
+    apply Forall_app. split; [apply pauses_done_weaken; exact D2|].
+    eapply Forall_impl; [|exact PK]. intros pd [A|[A B]]; [left; exact A|right].
+    split; [apply token_error_ctx; exact A|exact B].
+Qed.
